@@ -59,10 +59,14 @@ def generate(seed, tier, index):
         ops.insert(i_drive + 1, k1)
         ops.insert(i_drive, ["kinetics", entries, False, gen_us(rf)])
     ops.append(["finalize"])
-    eps = [{"obj": 0, "kind": "euler", "via": rf.choice(["LibRDEngine", "factory"]), "script": 0, "ops": ops}]
+    scripts = [entry]
+    eps = []
+    if rf.chance(0.35):
+        eps.append(C.warmup_episode(base.sub("warm"), scripts, kind=rf.choice(["euler", "euler", "tauleap"])))
+    eps.append({"obj": 0, "kind": "euler", "via": rf.choice(["LibRDEngine", "factory"]), "script": 0, "ops": ops})
     return {"format": 1, "property": ID, "seed": seed, "tier": tier, "index": index, "build": "plain",
-            "scripts": [entry], "lifetimes": [{"pyseed": rf.bits(30), "episodes": eps}],
-            "meta": {"kind": "euler", "coobs": coobs}}
+            "scripts": scripts, "lifetimes": [{"pyseed": rf.bits(30), "episodes": eps}],
+            "meta": {"kind": "euler", "coobs": coobs, "main_episode": len(eps) - 1}}
 
 
 def gen_us(rf):
@@ -150,7 +154,10 @@ def check(case, results):
     entry = case["scripts"][0]
     phys = entry["phys"]
     m = Model(phys["spec"])
-    h = traj.extract(case, 0, 0, res, m.ns, m.nc)
+    me = case["meta"].get("main_episode", 0)
+    if me:
+        stats["warmup_prehistory"] = 1
+    h = traj.extract(case, 0, me, res, m.ns, m.nc)
     if h.problems:
         return [{"class": "harness", "oracle": "harness", "detail": "; ".join(h.problems)}], stats
     v = []
@@ -166,9 +173,9 @@ def check(case, results):
         else:
             traj.check_script_numbers(h.setup, phys, v, "C01")
             traj.euler_oracle(h, m, phys, v, stats, "C01")
-        ops = case["lifetimes"][0]["episodes"][0]["ops"]
+        ops = case["lifetimes"][0]["episodes"][me]["ops"]
         for ev in res.events:
-            if ev["op"] == "kinetics" and "exc" not in ev and not ev.get("skipped"):
+            if ev["e"] == me and ev["op"] == "kinetics" and "exc" not in ev and not ev.get("skipped"):
                 check_kinetics(ev, ops[ev["i"]], m, phys, v, stats, "C01", masked=False)
     nst = stats.get("euler_steps_checked", 0)
     stats["engine_steps"] = nst
@@ -188,7 +195,7 @@ def check(case, results):
 
 def describe(case):
     return {"system": case["scripts"][0]["system"], "script": case["scripts"][0]["script"],
-            "ops": [o[0] for o in case["lifetimes"][0]["episodes"][0]["ops"]]}
+            "ops": [[o[0] for o in ep["ops"]] for ep in case["lifetimes"][0]["episodes"]]}
 
 
 RULE = ("case = one random system (1-5 species, 0-4 reactions of orders 0-4 with repeated species / empty sides, 1-3 "
